@@ -59,6 +59,12 @@ const (
 	MetaValue = "exported"
 )
 
+// IdMetaKey / IdMetaValue+<user> is what the idsetmeta action puts on the user's identity.
+const (
+	IdMetaKey   = "tracker-login"
+	IdMetaValue = "login-"
+)
+
 func guard(v View, key string, f func() string) {
 	defer func() {
 		if r := recover(); r != nil {
@@ -221,6 +227,16 @@ func ComputeView(c *cache.RepoCache) (v View, staged bool) {
 			v["identity-resolve.metadata"+p] = mapStr(i.ImmutableMetadata()) + "/" + mapStr(i.MutableMetadata())
 			v["identity-resolve.lastmod"+p] = fmt.Sprint(i.LastModificationLamports())
 			return "ok"
+		})
+	}
+	for _, x := range []string{"A", "B"} {
+		x := x
+		guard(v, "identity-metadata|"+IdMetaKey+"="+IdMetaValue+x, func() string {
+			i, err := c.Identities().ResolveIdentityImmutableMetadata(IdMetaKey, IdMetaValue+x)
+			if err != nil {
+				return errClass(err)
+			}
+			return string(i.Id())
 		})
 	}
 	guard(v, "user-identity|", func() string {
